@@ -1,5 +1,7 @@
 /- Helper lemmas for C02/C08: the token / block / stream mirror (token_predictor.rs, process.rs). -/
 import Preflate.Proofs.PredictTree
+import Preflate.Proofs.PredictTok
+import Preflate.Proofs.PredictBlock
 namespace Preflate.Proofs
 open Preflate
 
@@ -10,21 +12,45 @@ variable {H : Type}
 theorem hops_inv (P : Pred H) (plain : Array Nat) (s : PState H) (len dist h : Nat)
     (hm : matchAt plain s.pos len dist = true)
     (hh : calcHops P plain s len dist = .ok h) :
-    h ≠ 0 ∧ hopMatch P plain s len h = .ok dist := by
-  sorry
+    h ≠ 0 ∧ hopMatch P plain s len h = .ok dist :=
+  hops_inv' P plain s len dist h hm hh
 
 /-- one token -/
 theorem decTok_encTok (P : Pred H) (plain : Array Nat) (s : PState H) (t : Token)
     (hv : ValidTok plain s.pos t) (ops : List Op) (s' : PState H)
     (he : encTok P plain s t = .ok (ops, s')) (rest : List Op) :
-    decTok P plain s (ops ++ rest) = .ok (t, rest, s') := by
-  sorry
+    decTok P plain s (ops ++ rest) = .ok (t, rest, s') :=
+  decTok_encTok' P plain s t hv ops s' he rest
 
 /-- the whole stream, for ANY predictor -/
 theorem decStream_encStream (P : Pred H) (plain : Array Nat) (blocks : List Block) (pad : Nat)
     (hv : StreamValid plain blocks) (hpad : pad < 256) (ops : List Op)
     (he : encStream P plain blocks pad = .ok ops) (rest : List Op) :
     decStream P plain (ops ++ rest) = .ok (blocks, pad, rest) := by
-  sorry
+  obtain ⟨hne, hvb, hend⟩ := hv
+  unfold encStream at he
+  simp only [bind_eq_ok] at he
+  obtain ⟨⟨ops1, s1⟩, hb, he⟩ := he
+  by_cases heof : (!s1.eof plain) = true
+  · simp [heof, bind, Except.bind, throw, throwThe, MonadExceptOf.throw] at he
+  · simp only [heof, Bool.false_eq_true, if_false, Except.ok.injEq] at he
+    subst he
+    cases blocks with
+    | nil => exact absurd rfl hne
+    | cons b bs =>
+      have hb' := hb
+      simp only [encBlocks, bind_eq_ok] at hb'
+      obtain ⟨⟨a, s2⟩, h1, ⟨r, s3⟩, h2, hb'⟩ := hb'
+      simp only [Except.ok.injEq, Prod.mk.injEq] at hb'
+      obtain ⟨rfl, rfl⟩ := hb'
+      have htail := decTail_encBlocks P plain (b :: bs) ⟨P.init, none, 0, 0⟩ _ s3
+        ((a ++ r ++ Op.mis M_EOF false :: Op.corr C_NONZERO_PADDING pad :: rest).length + 1) hvb hend hb
+        (by simp only [List.length_append, List.length_cons]; split <;> simp <;> omega)
+        (Op.corr C_NONZERO_PADDING pad :: rest)
+      simp only [decTail, List.append_assoc, decIsEof_enc, bind, Except.bind, Bool.false_eq_true,
+        if_false] at htail
+      simp only [decStream, List.append_assoc, List.cons_append, List.nil_append, decIsEof_enc, bind,
+        Except.bind, Bool.false_eq_true, if_false, htail, pure, Except.pure, popCorr_cons,
+        Nat.mod_eq_of_lt hpad]
 
 end Preflate.Proofs
